@@ -342,7 +342,7 @@ TimeCases == {Case("M", "Time", "", t, "str", "exact") : t \in TimeClasses}
              \cup {Case("M", "Time", "", "zero", "null", "none")}     \* documented: zero time is null
 DurationClasses == {"zero", "ns", "sub-second", "seconds", "seconds-frac", "minutes", "hours", "days",
                     "weeks", "months", "years", "negative", "mixed", "maxInt64", "minInt64",
-                    "unit-minus-ns", "years-minus-ns"}
+                    "unit-minus-ns", "boundary-minus-ns"}
 DurationCases == {Case("M", "Duration", "", d, "str", "exact") : d \in DurationClasses}
 UUIDClasses == {"v4", "v1", "max", "random-bits"}
 UUIDCases == {Case("M", "UUID", "", u, "str", "exact") : u \in UUIDClasses}
